@@ -8,6 +8,7 @@ import pipeline as P
 VERIF = P.VERIF
 REPO = P.REPO
 NCPU = int(os.environ.get('VERIF_JOBS', '16'))
+HANG_LABEL = 'a loop of the code under test does not terminate (unwinding assertion failed; the native run of the same inputs hangs or aborts)'
 
 
 class Job:
@@ -309,11 +310,19 @@ class Check:
         notes = []
         if not build_failed:
             tasks = []
+            probes = []
             for j in self.jobs:
                 res = j.result
                 if res['verdict'] != 'fail':
                     if j.kfonly and res['verdict'] == 'pass':
                         notes.append('listed finding %s no longer reproduces (job %s passes); remove it from known_findings.json' % (j.kfonly, j.name))
+                    # hang probe: an unwinding assertion failed although the scenario's control flow is concrete and the bound generous.  Either the
+                    # bound is simply too small (then this stays 'no verdict') or a loop of the code under test does not terminate: the trace that
+                    # reaches the unwinding assertion is replayed natively, and only a native hang / abort turns it into a violation.
+                    if res['verdict'] == 'inconclusive' and j.members is None:
+                        unw = [(n, d) for (n, d) in (res['raw'].get('failed') or []) if 'unwinding assertion' in d or 'recursion unwinding' in d]
+                        if unw and len(probes) < 6:
+                            probes.append((j, unw[0][0], HANG_LABEL))
                     continue
                 # candidate violation(s): replay each distinct failing label (first property of each label)
                 seen = set()
@@ -332,7 +341,7 @@ class Check:
                     kept.append(t); per_label[t[2]] = n + 1
                 else:
                     skipped.append(t)
-            tasks = kept
+            tasks = kept + probes
             for (j, pn, label) in skipped:
                 j.result.setdefault('not_replayed', []).append(label)
             if skipped:
@@ -343,7 +352,12 @@ class Check:
 
             def do_replay(t):
                 j, pn, label = t
-                vals, err = self.get_inputs(j, j.result['cfile'], pn)
+                if label == HANG_LABEL:
+                    # cbmc cannot be asked for the trace of an unwinding assertion; the control flow of a scenario does not depend on its symbolic inputs
+                    # (they are only quantified over by the oracles), so the all-zero input - inside every harness's assumed ranges - reaches the same loop
+                    vals, err = [0] * 256, None
+                else:
+                    vals, err = self.get_inputs(j, j.result['cfile'], pn)
                 if vals is None:
                     return t, None, False, err
                 fn = self.write_replay(j, label, vals)
@@ -354,8 +368,10 @@ class Check:
                         if exe is None:
                             exe = self.native_build(j)
                             self.nbuilt[key] = exe
-                    rc, out = self.native_run(exe, fn)
+                    rc, out = self.native_run(exe, fn, timeout=60 if label == HANG_LABEL else 20)
                     ok, why = self.replay_verdict(rc, out, label)
+                    if label == HANG_LABEL and ok and rc == 1:
+                        ok, why = False, 'hang probe: native run fails a harness assertion, not a hang (' + why + ')'
                 except P.BuildError as e:
                     ok, why = False, 'native build failed: %s' % str(e)[-300:]
                 return t, fn, ok, why
@@ -364,13 +380,17 @@ class Check:
                 results = list(ex.map(do_replay, tasks))
             for (j, pn, label), fn, ok, why in results:
                 res = j.result
-                if fn is None:
+                if label == HANG_LABEL and not (fn is not None and ok):
+                    res.setdefault('probe', []).append(why)   # bound too small, nothing more: stays inconclusive
+                    notes.append('hang probe of %s: %s' % (j.name, why))
+                elif fn is None:
                     res.setdefault('unconfirmed', []).append((label, why))
                 elif ok:
                     if j.kfonly:
                         known_lines.append('KNOWN-FINDING: property=%s %s [%s: %s; %s]' % (self.pid, self.open_kf[j.kfonly]['what'], j.name, label, why))
                         res.setdefault('known', []).append((label, fn, why))
                     else:
+                        if label == HANG_LABEL: res['verdict'] = 'fail'
                         violations.append((j, label, fn, why))
                         res.setdefault('confirmed', []).append((label, fn, why))
                 else:
